@@ -859,6 +859,19 @@ func gen(c *lib.Ctx, rng *rand.Rand) []c08case {
 
 	// 6. the receiver's upload handler
 	cs = append(cs, genReceiver(c, rng)...)
+	// 7. a step-wise CMAF-ingest session through the API, in order, on the sequential worker (last:
+	// a hang ends that worker): the sink refuses connections, the session has 2 segments to send
+	apiSeq := func(method, url, body string) {
+		cs = append(cs, c08case{Group: "api:step-session", Req: c08req{Kind: "apiseq", Method: method, URL: url, Body: []byte(body),
+			Hdr: map[string]string{"Content-Type": "application/json"}}})
+		c.Count("api:step-session")
+	}
+	apiSeq("POST", "/api/cmaf-ingests", `{"destRoot":"http://127.0.0.1:9","destName":"d","livesimURL":"/livesim2/testpic_2s/Manifest.mpd","testNowMS":100000,"duration":4}`)
+	for i := 0; i < 2; i++ {
+		apiSeq("GET", "/api/cmaf-ingests/1/step", "")
+	}
+	apiSeq("DELETE", "/api/cmaf-ingests/1", "")
+	apiSeq("GET", "/api/cmaf-ingests/1/step", "")
 	return cs
 }
 
@@ -1103,7 +1116,7 @@ func runC08(c *lib.Ctx) error {
 	// requests are independent and are spread over several workers (hangs then overlap)
 	var recvIdx, otherIdx []int
 	for i, cs := range cases {
-		if cs.Req.Kind == "recv" {
+		if cs.Req.Kind == "recv" || cs.Req.Kind == "apiseq" {
 			recvIdx = append(recvIdx, i)
 		} else {
 			otherIdx = append(otherIdx, i)
